@@ -36,6 +36,7 @@ def floors(m, tier):
             "match() against '>' searches": (c.get("match_with_last_symbol", 0), u),
             "match() True against '>' searches": (c.get("match_true_with_last_symbol", 0), 10),
             "do_strip finders": (c.get("do_strip_finders", 0), u // 2),
+            "pre-sorted finders": (c.get("pre_sorted_finders", 0), u // 2),
             "do_strip non-empty results judged": (c.get("do_strip_nonempty", 0), u),
             "match() where the search's query overwrites its own symbol": (c.get("match_query_overwrites_symbol", 0), u),
             "typed non-search lookups": (c.get("typed_nonsearch", 0), u),
@@ -189,6 +190,10 @@ def worker(args):
         try:
             if c.get("mode") == "match":
                 check_match(rec, model, Sid, c["sid"], c["search"], c.get("forced_type"))
+            elif str(c.get("variant", "")).startswith("complete_pre_sorted"):
+                fd = FindInList(list(c["list"]), do_pre_sort=True)
+                state["finder_lists"] = {id(fd): list(c["list"])}
+                list(fd.find(c["search"], as_sid=False))
             elif str(c.get("variant", "")).startswith("raw_lines_do_strip"):
                 fd = FindInList(list(c["list"]), do_strip=True)
                 state["finder_lists"] = {id(fd): list(c["list"])}
@@ -223,6 +228,7 @@ def worker(args):
         variants.append(("leaf_only_extrapolated", list(ents)))
         # raw lines of a text file, read with do_strip=True: the entries are the stripped lines
         variants.append(("raw_lines_do_strip", [rng.choice(["", " ", "  "]) + e + rng.choice(["\n", " \n", "\r\n", "", "\t"]) for e in full]))
+        variants.append(("complete_pre_sorted", list(full)))
         for vname, L in variants:
             state["variant"] = vname
             state["finder_lists"] = {}
@@ -232,6 +238,13 @@ def worker(args):
                 finder = FindInList(list(L), do_extrapolate=True)
                 state["expect_list"] = list(full)
                 state["extrap_finder"] = finder
+            elif vname == "complete_pre_sorted":
+                state.pop("expect_list", None)
+                state.pop("extrap_finder", None)
+                finder = FindInList(list(L), do_pre_sort=True)       # (sorts and de-duplicates its list: same answers)
+                state["finder_lists"][id(finder)] = list(L)
+                state["keep"] = finder
+                rec.count("pre_sorted_finders")
             elif vname == "raw_lines_do_strip":
                 state.pop("expect_list", None)
                 state.pop("extrap_finder", None)
